@@ -401,12 +401,14 @@ func buildOp(b *world.B, op string, gasOverride int64) *builtOp {
 	default:
 		return nil
 	}
-	// MaxFee = exact tx fee on this state + gas x fee rate (fixed point over the encoded size)
+	// MaxFee = exact tx fee on this state + (gas + 0.6) x fee rate (fixed point over the encoded size)
 	sp.MaxFee = replica.Dna(1)
 	for i := 0; i < 3; i++ {
 		probe := signOnly(b, sp)
 		txFee := fee.CalculateFee(b.R.App.ValidatorsCache.NetworkSize(), feeRate, probe)
 		sp.MaxFee = new(big.Int).Add(txFee, new(big.Int).Mul(feeRate, big.NewInt(gas)))
+		// ... plus 0.6 of a gas unit: a ceiling that is not aligned to the gas price must still buy the floor only
+		sp.MaxFee.Add(sp.MaxFee, new(big.Int).Quo(new(big.Int).Mul(feeRate, big.NewInt(3)), big.NewInt(5)))
 	}
 	o.spec = sp
 	o.tx = b.Tx(sp)
